@@ -100,6 +100,8 @@ def pp_const(c):
         return "bytes%r" % (bytes(c["bytes"]),)
     if c.get("zst"):
         return "zst(%s)" % c["ty"]
+    if "ref_const" in c:
+        return "&const(%s)" % (c["ref_const"].get("variant_name") or c["ref_const"]["bits"])
     return "opaque(%s: %s)" % (c.get("opaque"), c["ty"])
 
 
